@@ -79,7 +79,7 @@ def synthetic_case(draw):
     return {'fields': [list(f) for f in fields], 'data': data, 'style': style, 'with_pte': with_pte}
 
 
-@PROP.given('synthetic-tables', lambda tier: synthetic_case(), quick=1500, thorough=60000, shards_quick=8)
+@PROP.given('synthetic-tables', lambda tier: synthetic_case(), quick=3000, thorough=60000, shards_quick=8)
 def synthetic(case, note):
     fields = [tuple(f) for f in case['fields']]
     pte = [{'pattern': '0101****', 'fmt': 'Fan presence 0x%02X', 'params': [4], 'file': 'fan.cpp', 'line': 5}] \
